@@ -1,13 +1,164 @@
 (** Lemmas and proofs for C08 (bitword). *)
-From Coq Require Import ZArith List Bool Lia.
-From Low Require Import Lib.MachInt Lib.Bits Lib.BitSeq Lib.Bytes Lib.Val Lib.Pack_bw Model.Bitword Spec.BitwordSpec.
+From Coq Require Import ZArith List Bool Lia PeanoNat.
+From Low Require Import Lib.MachInt Lib.Bits Lib.BitSeq Lib.Bytes Lib.Lex Lib.Val Lib.Pack_bw Lib.PackLemmas_bw
+  Model.Bitword Spec.BitwordSpec.
 Import ListNotations.
 Open Scope Z_scope.
 
 Definition widthP (n : nat) : Prop := n = 1%nat \/ n = 2%nat \/ n = 4%nat \/ n = 8%nat.
+Ltac widths H := destruct H as [ -> | [ -> | [ -> | -> ]]].
 
 Lemma newBW_fields n : widthP n ->
   width (newBW (Z.of_nat n)) = Z.of_nat n /\
   byteCap (newBW (Z.of_nat n)) = 8 / Z.of_nat n /\
   wordMask (newBW (Z.of_nat n)) = 2 ^ Z.of_nat n - 1.
-Proof. intros [ -> | [ -> | [ -> | -> ]]]; vm_compute; auto. Qed.
+Proof. intros H; widths H; vm_compute; auto. Qed.
+
+(** words per byte, as nat *)
+Definition capn (n : nat) : nat := (8 / n)%nat.
+
+Lemma capn_mul n : widthP n -> (capn n * n = 8)%nat.
+Proof. intros H; widths H; reflexivity. Qed.
+
+Lemma byteCap_capn n : widthP n -> byteCap (newBW (Z.of_nat n)) = Z.of_nat (capn n).
+Proof. intros H; widths H; reflexivity. Qed.
+
+(** * one byte: the shifts and the mask cut the byte's bits into n-bit chunks (finite check) *)
+Fixpoint zs_eqb (a b : list Z) : bool :=
+  match a, b with
+  | [], [] => true
+  | x :: a', y :: b' => (x =? y) && zs_eqb a' b'
+  | _, _ => false
+  end.
+Lemma zs_eqb_eq a : forall b, zs_eqb a b = true -> a = b.
+Proof.
+  induction a as [|x a IH]; intros [|y b]; cbn; try congruence.
+  intros H. apply andb_prop in H as [H1 H2]. apply Z.eqb_eq in H1. subst. f_equal. auto.
+Qed.
+
+Lemma FromStr_byte_spec n b : widthP n -> byte_ok b ->
+  FromStr_byte (newBW (Z.of_nat n)) b = map val_msb (chunks n (byte_bits b)).
+Proof.
+  intros Hn Hb.
+  assert (T : forallb (fun n => forallb (fun b =>
+             zs_eqb (FromStr_byte (newBW (Z.of_nat n)) b) (map val_msb (chunks n (byte_bits b))))
+             (zrange 256)) [1%nat; 2%nat; 4%nat; 8%nat] = true) by (vm_compute; reflexivity).
+  apply zs_eqb_eq. rewrite forallb_forall in T.
+  apply (forall_zrange _ _ (T n ltac:(widths Hn; cbn; auto)) b Hb).
+Qed.
+
+Lemma FromStr_byte_length n b : widthP n -> length (FromStr_byte (newBW (Z.of_nat n)) b) = capn n.
+Proof.
+  intros Hn. unfold FromStr_byte. rewrite map_length, zrange_length, byteCap_capn by exact Hn. lia.
+Qed.
+
+(** * FromStr *)
+Lemma FromStr_exact n s : widthP n -> bytes_ok s ->
+  FromStr (newBW (Z.of_nat n)) s = spec_FromStr n s.
+Proof.
+  intros Hn Hs. unfold spec_FromStr. induction Hs as [|b s Hb Hs IH]; [widths Hn; reflexivity|].
+  cbn [FromStr flat_map]. fold (FromStr (newBW (Z.of_nat n)) s). rewrite IH.
+  rewrite msb_bits_cons.
+  rewrite (chunks_app_mult n (capn n)).
+  - rewrite map_app. f_equal. now apply FromStr_byte_spec.
+  - widths Hn; lia.
+  - rewrite byte_bits_length. symmetry. now apply capn_mul.
+Qed.
+
+Lemma FromStr_length_nat n s : widthP n ->
+  length (FromStr (newBW (Z.of_nat n)) s) = (length s * capn n)%nat.
+Proof.
+  intros Hn. induction s as [|b s IH]; [reflexivity|].
+  cbn [FromStr flat_map length]. rewrite app_length. fold (FromStr (newBW (Z.of_nat n)) s).
+  rewrite IH, FromStr_byte_length by exact Hn. lia.
+Qed.
+
+Lemma FromStr_length n s : widthP n ->
+  zlen (FromStr (newBW (Z.of_nat n)) s) = 8 * zlen s / Z.of_nat n.
+Proof.
+  intros Hn. unfold zlen. rewrite FromStr_length_nat by exact Hn.
+  rewrite Nat2Z.inj_mul. set (k := Z.of_nat (length s)).
+  widths Hn; cbn [capn Nat.div Nat.divmod fst Z.of_nat Pos.of_succ_nat Pos.succ];
+    apply Z.div_unique_exact; lia.
+Qed.
+
+(** * indexing a flat_map of equal-length pieces *)
+Lemma nth_error_nil' {A} k : nth_error (@nil A) k = None.
+Proof. destruct k; reflexivity. Qed.
+
+Lemma nth_error_flat_map_const {A B} (f : A -> list B) m (s : list A) :
+  (forall x, length (f x) = m) ->
+  forall q r, (r < m)%nat ->
+  nth_error (flat_map f s) (q * m + r) =
+  match nth_error s q with Some x => nth_error (f x) r | None => None end.
+Proof.
+  intros Hf. induction s as [|x s IH]; intros q r Hr.
+  - cbn [flat_map]. now rewrite !nth_error_nil'.
+  - cbn [flat_map]. destruct q as [|q].
+    + cbn [Nat.mul Nat.add nth_error]. rewrite nth_error_app1 by (rewrite Hf; exact Hr). reflexivity.
+    + cbn [nth_error]. rewrite nth_error_app2 by (rewrite Hf; cbn [Nat.mul]; lia).
+      rewrite Hf. replace (S q * m + r - m)%nat with (q * m + r)%nat by (cbn [Nat.mul]; lia).
+      now apply IH.
+Qed.
+
+Lemma zrange_nth_error n k : (k < Z.to_nat n)%nat -> nth_error (zrange n) k = Some (Z.of_nat k).
+Proof.
+  intros H. unfold zrange. rewrite nth_error_map, seq_nth_error by exact H. reflexivity.
+Qed.
+
+(** * Get *)
+Lemma land7 x : Z.land x 7 = x mod 8.
+Proof. change 7 with (Z.ones 3). now rewrite Z.land_ones by lia. Qed.
+
+Lemma Get_FromStr n s i : widthP n -> 0 <= i < zlen s * Z.of_nat (capn n) ->
+  Get (newBW (Z.of_nat n)) s i = nthZ (FromStr (newBW (Z.of_nat n)) s) i.
+Proof.
+  intros Hn Hi.
+  set (m := capn n) in *.
+  assert (Hm : (0 < m)%nat) by (subst m; widths Hn; cbn; lia).
+  set (q := Z.to_nat (i / Z.of_nat m)). set (r := Z.to_nat (i mod Z.of_nat m)).
+  assert (Ei : i = Z.of_nat (q * m + r)).
+  { subst q r. rewrite Nat2Z.inj_add, Nat2Z.inj_mul, !Z2Nat.id.
+    - rewrite Z.mul_comm. apply Z.div_mod. lia.
+    - apply Z.mod_pos_bound. lia.
+    - apply Z.div_pos; lia. }
+  assert (Hr : (r < m)%nat).
+  { subst r. pose proof (Z.mod_pos_bound i (Z.of_nat m) ltac:(lia)). lia. }
+  assert (Hq : (q < length s)%nat).
+  { unfold zlen in Hi. rewrite Ei in Hi. rewrite Nat2Z.inj_add, Nat2Z.inj_mul in Hi. nia. }
+  rewrite Ei at 2. rewrite nthZ_of_nat.
+  unfold FromStr. rewrite (nth_error_flat_map_const _ m) by (try exact Hr; intros; now apply FromStr_byte_length).
+  unfold Get.
+  destruct (newBW_fields n Hn) as (Ew & Ec & Ek). rewrite Ew.
+  assert (Eq8 : Z.of_nat n * Z.of_nat m = 8) by (subst m; widths Hn; reflexivity).
+  assert (Esh : Z.shiftr (Z.of_nat n * i) 3 = Z.of_nat q).
+  { rewrite Z.shiftr_div_pow2 by lia. change (2 ^ 3) with 8.
+    rewrite Ei, Nat2Z.inj_add, Nat2Z.inj_mul.
+    symmetry. apply (Z.div_unique _ _ _ (Z.of_nat n * Z.of_nat r)); nia. }
+  rewrite Esh, nthZ_of_nat.
+  destruct (nth_error s q) as [b|] eqn:Eb; [|apply nth_error_None in Eb; lia].
+  unfold FromStr_byte. rewrite nth_error_map, zrange_nth_error by (rewrite byteCap_capn by exact Hn; fold m; lia).
+  cbn [option_map]. f_equal. f_equal. rewrite Ew. f_equal.
+  rewrite land7.
+  assert (Em : (Z.of_nat n * i + Z.of_nat n - 1) mod 8 = Z.of_nat n * Z.of_nat r + Z.of_nat n - 1).
+  { rewrite Ei, Nat2Z.inj_add, Nat2Z.inj_mul. symmetry.
+    apply (Z.mod_unique _ _ (Z.of_nat q)); nia. }
+  rewrite Em. lia.
+Qed.
+
+Lemma Get_exact n s i : widthP n -> bytes_ok s -> 0 <= i < 8 * zlen s / Z.of_nat n ->
+  Get (newBW (Z.of_nat n)) s i = spec_Get n s i.
+Proof.
+  intros Hn Hs Hi. unfold spec_Get. rewrite <- FromStr_exact by assumption.
+  apply Get_FromStr; [exact Hn|].
+  rewrite <- FromStr_length in Hi by exact Hn. unfold zlen in *. rewrite FromStr_length_nat in Hi by exact Hn. lia.
+Qed.
+
+Lemma Get_nth n s i : widthP n -> 0 <= i < 8 * zlen s / Z.of_nat n ->
+  Get (newBW (Z.of_nat n)) s i = Some (nth (Z.to_nat i) (FromStr (newBW (Z.of_nat n)) s) 0).
+Proof.
+  intros Hn Hi.
+  rewrite <- FromStr_length in Hi by exact Hn.
+  rewrite Get_FromStr; [|exact Hn|unfold zlen in *; rewrite FromStr_length_nat in Hi by exact Hn; lia].
+  unfold nthZ. destruct (Z.ltb_spec i 0); [lia|]. apply nth_error_nth'. unfold zlen in Hi. lia.
+Qed.
